@@ -138,7 +138,7 @@ P["C06"] = {
 # ---------------------------------------------------------------- C07
 def c07(**kw): return job("H_C07_cancel", conc=True, **kw)
 c07q = [c07(hmode=1, cprog=0, fault=0, tcap=1), c07(hmode=0, cprog=1, fault=0, tcap=1), c07(hmode=1, cprog=2, fault=0, tcap=1), c07(hmode=1, cprog=0, fault=1, tcap=1),
-        c07(hmode=2, cprog=0, m=1, fault=0, tcap=1)] + [job("H_C11_client_cancel_unread", conc=True, reach=["checked"], m=m) for m in (0, 2, 3)]
+        c07(hmode=2, cprog=0, m=1, fault=0, tcap=1)] + [job("H_C11_client_cancel_unread", conc=True, reach=["checked"], m=m) for m in (0, 2, 3)] + [job("H_C11_client_cancel_unread", conc=True, reach=["checked"], m=3, sender=1)]
 P["C07"] = {
  "title": "cancelling a streaming call cancels its handler and fails the caller's calls",
  "bounds": "one bidi stream; cancellation by a racing goroutine (lands at every point of every other goroutine's operation sequence) or deadline expiry (may fire at any scheduling point); handler blocked in RecvMsg / on its context / after queuing m responses (m <= 1 quick, 2 thorough); caller receiving / sending then receiving / half-closed; optional unrelated unary call on the connection; all interleavings",
@@ -162,7 +162,7 @@ P["C10"] = {
 # ---------------------------------------------------------------- C11
 c11q = [job("H_C11_server_abandon", conc=True, reach=["checked"], n=n, k=k) for n, k in ((2, 0), (3, 0), (3, 1), (3, 2))] + \
        [job("H_C11_client_extra", conc=True, reach=["probe-ok"], mode=m, extra=x) for m in (0, 1) for x in (2, 3)] + \
-       [job("H_C11_client_cancel_unread", conc=True, reach=["checked"], m=m) for m in (1, 3, 4)]
+       [job("H_C11_client_cancel_unread", conc=True, reach=["checked"], m=m) for m in (1, 3, 4)] + [job("H_C11_client_cancel_unread", conc=True, reach=["checked"], m=m, sender=1) for m in (2, 3)]
 P["C11"] = {
  "title": "an abandoned stream never wedges its connection",
  "bounds": "server side: a handler returns after k of n client messages (n <= 3 quick / 5 thorough, all k < n), the peer keeps sending the rest and the trailer, then a probe unary request must be served; client side: a finished stream or unary call receives 2..3 (thorough 4) further envelopes for its id, then a probe call must get its own reply; probes have no deadline (a wedge shows as a blocked goroutine); all interleavings",
